@@ -242,7 +242,9 @@ class Check:
                 ent, n = self.known_hits[e["key"]]
                 self.known_hits[e["key"]] = (ent, n + 1)
                 return "known"
-        if len(self.violations) >= 20:
+        # at most 20 replay files of each kind (with / without a concrete failing input), so that a flood of
+        # model disagreements cannot crowd out the concrete failing inputs found later in the run
+        if sum(1 for rp_, _, nf in self.violations if rp_ is not None and nf == no_failing_input) >= 20:
             self.violations.append((None, what, no_failing_input))
             return "violation"
         self._nreplay += 1
@@ -355,7 +357,8 @@ class Check:
         for k, (e, n) in sorted(self.known_hits.items()):
             print("KNOWN-FINDING: property=%s %s [%s; %d occurrence(s) this run]" % (self.pid, e["what"], e["key"], n))
         nrep = 0
-        for rp, what, nofail in self.violations:
+        # concrete failing inputs first
+        for rp, what, nofail in sorted(self.violations, key=lambda v: bool(v[2])):
             if rp is None:
                 continue
             nrep += 1
